@@ -285,19 +285,23 @@ class SimPipe:
 class PipeReader:
     def __init__(self, sched, pipe, name, faults):
         self.s, self.pipe, self.name = sched, pipe, name
-        self.faults = faults     # sorted list: the n-th readline raises EINTR
+        self.faults = faults     # sorted list of (n, errno name): the n-th readline raises it
         self.nread = 0
         self.local = bytearray()
 
     def readline(self):
         p = self.pipe
         self.nread += 1
-        if self.faults and self.faults[0] == self.nread:
-            self.faults.pop(0)
-            self.s.probe('eintr_injected')
-            self.s.log.append(('eintr', self.name))
+        if self.faults and self.faults[0][0] == self.nread:
+            _, kind = self.faults.pop(0)
+            self.s.probe('eintr_injected' if kind == 'EINTR' else 'read_error_injected')
+            self.s.log.append(('eintr' if kind == 'EINTR' else 'read-error', self.name))
             self.s.switch()
-            raise OSError(errno.EINTR, 'Interrupted system call (injected)')
+            if kind == 'EINTR':
+                raise OSError(errno.EINTR, 'Interrupted system call (injected)')
+            # a transient error of another kind (EIO from a flaky device, EAGAIN on a
+            # descriptor somebody made non-blocking): the next attempt works
+            raise OSError(getattr(errno, kind), 'transient read error (injected)')
         # like io.BufferedReader: drain the pipe into a reader-local buffer until a newline
         loc = self.local
         while True:
@@ -830,7 +834,7 @@ class SimPopen:
             env.invariant_violations.append(
                 ('alive>N', alive, env.processes_limit(), layer))
         s.log.append(('spawn', layer, simpid))
-        eintr = [e['nth'] for e in env.channel_faults(layer, 'eintr')]
+        eintr = [(e['nth'], e.get('errno', 'EINTR')) for e in env.channel_faults(layer, 'eintr')]
         self.stdout = PipeReader(s, self.actor.out, layer + ':out', sorted(eintr))
         self.stderr = PipeReader(s, self.actor.err, layer + ':err', [])
         self.stdin = _SimStdin() if stdin == -1 else None
